@@ -10,6 +10,9 @@ SRC = (" The Numba kernels are additionally TRANSLATED from the current source o
        "ones (harness/kernels.py → Kernels*.lean) — and proved equal to the hand-written model for all inputs (Properties/Full*.lean, FullApi.lean, Src*.lean), so a changed kernel "
        "or method breaks a proof obligation.")
 
+E2E = (" Properties/EndToEnd.lean closes the chain: the generated definitions are run over ANY history tree (srcRun, srcRunHll, srcRunHH), proved to represent the model's "
+       "evaluation of that history, and the property theorem is restated for them (C01_lower_src/C01_upper_src, C02_setOnly_src, C03_getitem_src, C04_getitem_src, C05_self_src, C18_add_mono_src).")
+
 SCHEMA = (" The class-level code (constructor validation, what save() writes and load() copies back, the shared-memory byte layouts of __init__ and attach_existing_shm) is TRANSLATED "
           "from the current source on every run (harness/schema.py → Model/Generated/Schema.lean) and proved to be the modelled one for all shapes (Properties/SrcSchema.lean).")
 
@@ -22,14 +25,14 @@ CHECKS = {
         text="Theorems C01.lower_contract/upper_contract/exact_contract (and their instances at the exact kernel model) prove true ≤ estimate ≤ per-row collision bound "
              "for EVERY history tree of adds and merges, every key, width, depth and hash, by induction over step contracts AddOK/MergeOK. The run re-checks the proofs, "
              "evaluates the Lean contracts on the real code's before/after tables, the Lean query on real tables, and the bound on real estimates; all short histories are enumerated."
-             + SRC + "",
+             + SRC + E2E + "",
         tech="Lean 4 proof (induction over history trees with decidable step contracts) + differential correspondence on real tables",
         ref="§4 C01"),
     "C02": dict(
         text="Theorems C02_setOnly/C02_fresh/C02_denote_* prove that the register file is the per-index maximum rank over the SET of keys for any history tree, any hash; "
              "nlz64_spec/rank_spec prove the branch-wise leading-zero count correct for all 64-bit inputs; merge is comm/assoc/idempotent. The run re-checks the proofs and "
              "compares real registers with the full-stack Lean model (incl. FastHash) on histories with constructed high-rank keys."
-             + SRC + "",
+             + SRC + E2E + "",
         tech="Lean 4 proof (denotational characterisation of registers) + full-stack differential correspondence",
         ref="§4 C02"),
     "C11": dict(
@@ -47,14 +50,14 @@ CHECKS.update({
         text="Theorems cell_le_true/C03_getitem/C03_query prove, for every history tree, hash, width and depth, that every stored count is ≤ the true count of the stored key "
              "identity, hence hh[key] and every reported pair never over-count and a never-added key is never reported; padKey_inj proves (padded bytes, length) = identity. "
              "The run re-checks the proofs, compares cells/answers with the model on NUL/length-sensitive keys and evaluates the oracle on real values; width-1 sequences enumerated."
-             + SRC + "",
+             + SRC + E2E + "",
         tech="Lean 4 proof (cell invariant by induction over history trees) + differential correspondence",
         ref="§4 C03"),
     "C04": dict(
         text="Theorems C04_phi/C04_getitem/C04_query/C04_major prove the Boyer-Moore potential bound 2f - W_r ≤ hh[key] for every history tree absent saturation (total weight ≤ 2^32-1), "
              "that query contains such a key, and that a strict-majority key is reported first, strictly ahead of all others. The run re-checks the proofs, compares with the model and "
              "evaluates the bounds on real values for every key after every operation; width-1 orderings and partitions are enumerated."
-             + SRC + "",
+             + SRC + E2E + "",
         tech="Lean 4 proof (potential-function invariant, super-additive under merge) + differential correspondence",
         ref="§4 C04"),
     "C13": dict(
